@@ -123,7 +123,10 @@ namespace photon
             pCtrl->cvar.notify_one();
         } else {
             pCtrl->joining = true;
-            pCtrl->cvar.wait(pCtrl->m_mtx);
+            // wait until the worker has finished (it resets `joining`); a
+            // thread_interrupt() to the joiner must not end the join early
+            do { pCtrl->cvar.wait(pCtrl->m_mtx); }
+            while (pCtrl->joining);
         }
         return ret;
     }
